@@ -6,7 +6,7 @@ export CARGO_NET_OFFLINE=true
 mkdir -p work replays evidence
 [ -f harness/Cargo.lock ] || cp /repo/Cargo.lock harness/Cargo.lock
 (cd harness && cargo build --offline 2>&1 | tail -3)
-(cd lean && lake build Rivia driver 2>&1 | tail -3)
-# pre-build every property module so that the per-check `lake build` is a no-op
-(cd lean && for f in Rivia/Props/C*.lean; do m=$(basename $f .lean); lake build Rivia.Props.$m 2>&1 | tail -1; done)
+# one lake invocation builds the library, the driver and every property module in parallel (about 2 min from
+# scratch on 16 cores), so that the per-check `lake build` is a no-op
+(cd lean && lake build Rivia driver $(for f in Rivia/Props/C*.lean; do echo Rivia.Props.$(basename $f .lean); done) 2>&1 | tail -3)
 echo setup-done
